@@ -91,7 +91,8 @@ type Config struct {
 type Stats struct {
 	States, Transitions, Replayed int64
 	DepthDone                     int
-	Complete                      bool // frontier exhausted (the reachable space within the alphabet is fully explored)
+	Complete                      bool   // frontier exhausted (the reachable space within the alphabet is fully explored)
+	Samples                       [][]Op // a few histories actually explored (deepest level reached)
 }
 
 // Explore runs a level-synchronous BFS of sc, evaluating the oracles on every transition and state.
@@ -146,6 +147,7 @@ func Explore(c *core.C, sc Scenario, cfg Config) Stats {
 		report(c, cfg.Name, f, nil)
 	}
 	frontier := []*node{{key: rootKey}}
+	var lastLevel []*node
 	var stop atomic.Bool
 	for depth := 0; depth < cfg.MaxDepth && len(frontier) > 0 && !stop.Load(); depth++ {
 		var mu sync.Mutex
@@ -224,11 +226,19 @@ func Explore(c *core.C, sc Scenario, cfg Config) Stats {
 			break
 		}
 		st.DepthDone = depth + 1
+		if len(next) > 0 {
+			lastLevel = next
+		}
 		// deterministic order of the next level (alphabet order within parent order)
 		sort.SliceStable(next, func(i, j int) bool { return string(next[i].key[:]) < string(next[j].key[:]) })
 		frontier = next
 	}
 	st.Complete = len(frontier) == 0 && !stop.Load()
+	if lastLevel != nil {
+		for i := 0; i < len(lastLevel) && i < 2; i++ {
+			st.Samples = append(st.Samples, lastLevel[i*(len(lastLevel)-1)].history())
+		}
+	}
 	return st
 }
 
@@ -258,6 +268,7 @@ func RunParts(c *core.C, parts []Part, sample [][]Op) {
 		return
 	}
 	var tot Stats
+	var realSamples [][]Op
 	var summaries []map[string]any
 	allDone := true
 	maxDepth := 0
@@ -274,6 +285,9 @@ func RunParts(c *core.C, parts []Part, sample [][]Op) {
 		tot.States += st.States
 		tot.Transitions += st.Transitions
 		tot.Replayed += st.Replayed
+		if len(realSamples) < 6 {
+			realSamples = append(realSamples, st.Samples...)
+		}
 		done := st.Complete || st.DepthDone >= p.Cfg.MaxDepth
 		if !done {
 			allDone = false
@@ -295,6 +309,9 @@ func RunParts(c *core.C, parts []Part, sample [][]Op) {
 	c.Set("parts", summaries)
 	c.Set("max_depth", maxDepth)
 	c.Set("exhaustive", allDone)
+	if len(realSamples) > 0 {
+		sample = realSamples
+	}
 	for _, h := range sample {
 		c.Sample(opsText(h))
 	}
